@@ -38,8 +38,8 @@ mut("array_move_keeps_pointer", ["C12"], "array move constructor copies the poin
 mut("strided_pack_ctor_removed", ["C13"], "strided loses its parameter_pack<T> constructor", [(T + "strided.hpp", "        template <\n            typename T,\n            std::enable_if_t<std::is_constructible_v<owning_data_t, T>, bool> =\n                true>\n        explicit owning_data_t(parameter_pack<T> && args)\n            : owning_data_t(args.x)\n        {\n        }\n", "", 1)])
 mut("morton_view_user_copy_ctor", ["C13"], "Morton view gets a user-provided copy constructor (no longer trivially copyable)", [(T + "morton.hpp", "        non_owning_data_t(const owning_data_t & o)\n            : m_sizes(o.m_sizes)\n            , m_storage(o.m_storage)\n        {\n        }\n\n        COVFIE_DEVICE typename covariant_output_t::vector_t\n        at(typename contravariant_input_t::vector_t c) const\n        {\n#ifndef NDEBUG", "        non_owning_data_t(const owning_data_t & o)\n            : m_sizes(o.m_sizes)\n            , m_storage(o.m_storage)\n        {\n        }\n\n        non_owning_data_t(const non_owning_data_t & o)\n            : m_sizes(o.m_sizes)\n            , m_storage(o.m_storage)\n        {\n        }\n\n        COVFIE_DEVICE typename covariant_output_t::vector_t\n        at(typename contravariant_input_t::vector_t c) const\n        {\n#ifndef NDEBUG", 1)])
 mut("hilbert_dimension_assert_dropped", ["C13"], "hilbert's N == 2 static_assert removed", [(T + "hilbert.hpp", "        contravariant_input_t::dimensions == 2,", "        contravariant_input_t::dimensions >= 2,", 1)])
-mut("pdep_mask_reversed", ["C14", "C01"], "BMI2 deposit mask shifted by N-1-I", [(T + "morton.hpp", "            << I;\n    };", "            << (N - 1 - I);\n    };", 1)])
-mut("hilbert_rot_without_swap", ["C14", "C01"], "Hilbert rotation omits the x/y swap", [(T + "hilbert.hpp", "            std::size_t t = *x;\n            *x = *y;\n            *y = t;", "            std::size_t t = *x;\n            (void)t;", 1)])
+mut("pdep_mask_reversed", ["C14"], "BMI2 deposit mask shifted by N-1-I (still a bijection: C01 rightly stays silent, only the published curve / BMI2==portable clause breaks)", [(T + "morton.hpp", "            << I;\n    };", "            << (N - 1 - I);\n    };", 1)])
+mut("hilbert_rot_without_swap", ["C14"], "Hilbert rotation omits the x/y swap (still injective and in bounds: C01 rightly stays silent, the curve loses adjacency)", [(T + "hilbert.hpp", "            std::size_t t = *x;\n            *x = *y;\n            *y = t;", "            std::size_t t = *x;\n            (void)t;", 1)])
 mut("round_pow2_strict", ["C18"], "round_pow2 loop uses j <= i", [(C + "utility/numeric.hpp", "    for (; j < i; j *= 2)", "    for (; j <= i; j *= 2)", 1)])
 mut("ipow_square_first", ["C18"], "ipow squares before multiplying", [(C + "utility/numeric.hpp", "        if (p & 1) {\n            r *= i;\n        }\n\n        i *= i;", "        i *= i;\n\n        if (p & 1) {\n            r *= i;\n        }", 1)])
 mut("nd_map_tail_wrong_axis", ["C19"], "tail() drops the last axis instead of the first", [(C + "utility/nd_map.hpp", "{t.at(Ns + 1u)...};", "{t.at(Ns)...};", 1)])
